@@ -375,6 +375,102 @@ def build_T7k(tree):
     return text, span_sha([zif]) + hashlib.sha256(txt.encode()).hexdigest()[:8]
 
 
+class _DsStub:
+    """stand-in for a dataset that has / has not the attribute DimensionOrganizationType (nothing else)"""
+    def __init__(self, value):
+        if value is not None:
+            self.DimensionOrganizationType = value
+
+    def get(self, key, default=None):
+        if key != 'DimensionOrganizationType':
+            raise KeyError(key)
+        return getattr(self, 'DimensionOrganizationType', default)
+
+    def __contains__(self, key):
+        return key == 'DimensionOrganizationType' and hasattr(self, 'DimensionOrganizationType')
+
+
+def _tiled_full_decision(expr, owner, lean_name, doc, negate=False):
+    """A boolean expression of the source that decides "is this image TILED_FULL" from the attribute DimensionOrganizationType of
+    `owner` alone, turned into its truth table (attribute absent / equal to "TILED_FULL" / any other value) by EVALUATING the
+    expression of the current source on three stand-in datasets.  Admitted: names `owner`, `hasattr`; string constants
+    'DimensionOrganizationType', 'TILED_FULL', ''; and / or / not / == / != / .get / attribute access / `in`."""
+    for node in ast.walk(expr):
+        if isinstance(node, ast.Name) and node.id not in (owner, 'hasattr'):
+            raise Unsupported(f'{lean_name}: name {node.id} in a TILED_FULL decision')
+        if isinstance(node, ast.Constant) and node.value not in ('DimensionOrganizationType', 'TILED_FULL', ''):
+            raise Unsupported(f'{lean_name}: constant {node.value!r} in a TILED_FULL decision')
+        if isinstance(node, ast.Attribute) and node.attr not in ('DimensionOrganizationType', 'get'):
+            raise Unsupported(f'{lean_name}: attribute {node.attr} in a TILED_FULL decision')
+        if not isinstance(node, (ast.Name, ast.Constant, ast.Attribute, ast.BoolOp, ast.And, ast.Or, ast.UnaryOp, ast.Not, ast.Compare,
+                                 ast.Eq, ast.NotEq, ast.In, ast.NotIn, ast.Call, ast.Load, ast.keyword)):
+            raise Unsupported(f'{lean_name}: {type(node).__name__} in a TILED_FULL decision')
+    code = compile(ast.fix_missing_locations(ast.Expression(body=ast.parse(ast.unparse(expr), mode='eval').body)), '<tiled-full-decision>', 'eval')
+    row = []
+    for v in (None, 'TILED_FULL', 'TILED_SPARSE'):
+        try:
+            b = bool(eval(code, {'__builtins__': {'hasattr': hasattr}}, {owner: _DsStub(v)}))
+        except Exception as e:  # noqa: BLE001
+            raise Unsupported(f'{lean_name}: decision raises {type(e).__name__} on a dataset with DimensionOrganizationType={v!r}')
+        row.append(b != negate)
+    lb = lambda b: 'true' if b else 'false'   # noqa: E731
+    return (f"/-- {doc} — truth table of the source expression (attribute absent / \"TILED_FULL\" / any other value) -/\n"
+            f"def {lean_name} (org : Option String) : Bool :=\n  match org with\n  | none => {lb(row[0])}\n"
+            f"  | some v => if v = \"TILED_FULL\" then {lb(row[1])} else {lb(row[2])}")
+
+
+def build_T7l(tree):
+    """image.py: the two places where `_Image` decides that the image is TILED_FULL -- `_is_tiled_full` (how the frame look-up is
+    built: implied positions) and the missing-frame test of `_iterate_indices_for_tiled_region` (negated there)."""
+    fn = None
+    asg = None
+    for node in ast.walk(find_func(tree, '_Image')):
+        if isinstance(node, ast.Assign) and _norm(node.targets[0]) == 'self._is_tiled_full' and not isinstance(node.value, ast.Constant):
+            asg = node
+    if asg is None:
+        raise Unsupported('_Image: assignment of self._is_tiled_full from the dataset not found')
+    t1 = _tiled_full_decision(asg.value, 'self', 'isTiledFullLut', '`_Image._build_luts`: `self._is_tiled_full` (positions implied by frame order)')
+    it = find_func(tree, '_Image._iterate_indices_for_tiled_region')
+    cmp_ = None
+    for node in ast.walk(it):
+        if isinstance(node, ast.Compare) and 'DimensionOrganizationType' in ast.unparse(node):
+            cmp_ = node
+    if cmp_ is None:
+        raise Unsupported('_iterate_indices_for_tiled_region: comparison of DimensionOrganizationType not found')
+    t2 = _tiled_full_decision(cmp_, 'self', 'isTiledFullRegionRead', '`_iterate_indices_for_tiled_region`: the image counts as TILED_FULL for the '
+                              'missing-frame test (the source tests the negation)', negate=True)
+    return t1 + '\n\n' + t2, span_sha([asg, ast.Expr(value=cmp_)])
+
+
+def build_T7m(tree):
+    """spatial.py: `iter_tiled_full_frame_data` (refuses anything that is not TILED_FULL; negated there) and
+    `_get_spatial_information` (`is_tiled_full`: take the position of a frame from that iteration)."""
+    fn = find_func(tree, 'iter_tiled_full_frame_data')
+    guard = None
+    for node in ast.walk(fn):
+        if isinstance(node, ast.If) and 'DimensionOrganizationType' in ast.unparse(node.test) and any(isinstance(x, ast.Raise) for x in node.body):
+            guard = node
+    if guard is None:
+        raise Unsupported('iter_tiled_full_frame_data: refusal of images that are not TILED_FULL not found')
+    # the test may be a disjunction with other reasons for refusal: keep the disjuncts that speak about the organisation type
+    test = guard.test
+    if isinstance(test, ast.BoolOp) and isinstance(test.op, ast.Or):
+        parts = [v for v in test.values if 'DimensionOrganizationType' in ast.unparse(v)]
+        test = parts[0] if len(parts) == 1 else ast.BoolOp(op=ast.Or(), values=parts)
+    t1 = _tiled_full_decision(test, 'dataset', 'isTiledFullIter', '`iter_tiled_full_frame_data`: the dataset is accepted as TILED_FULL '
+                              '(the source tests the negation and raises)', negate=True)
+    gi = find_func(tree, '_get_spatial_information')
+    asg = None
+    for node in ast.walk(gi):
+        if isinstance(node, ast.Assign) and _norm(node.targets[0]) == 'is_tiled_full':
+            asg = node
+    if asg is None:
+        raise Unsupported('_get_spatial_information: is_tiled_full = ... not found')
+    t2 = _tiled_full_decision(asg.value, 'dataset', 'isTiledFullSpatialInfo', '`_get_spatial_information`: `is_tiled_full` (frame position '
+                              'taken from `iter_tiled_full_frame_data`)')
+    return t1 + '\n\n' + t2, span_sha([guard, asg])
+
+
 TARGETS = {
     'T7a': {'file': 'spatial.py', 'build': build_T7a},
     'T7b': {'file': 'spatial.py', 'build': build_T7b},
@@ -387,4 +483,6 @@ TARGETS = {
     'T7i': {'file': 'spatial.py', 'build': build_T7i},
     'T7j': {'file': 'utils.py', 'build': build_T7j},
     'T7k': {'file': 'utils.py', 'build': build_T7k},
+    'T7l': {'file': 'image.py', 'build': build_T7l},
+    'T7m': {'file': 'spatial.py', 'build': build_T7m},
 }
